@@ -731,7 +731,7 @@ func (u *connectStreamingUnmarshaler) Unmarshal(message any) *Error {
 		// error: never surface it with the zero (OK) code.
 		u.endStreamErr.code = CodeUnknown
 	}
-	return errSpecialEnvelope
+	return newErrSpecialEnvelope()
 }
 
 func (u *connectStreamingUnmarshaler) Trailer() http.Header {
